@@ -6,16 +6,16 @@ Import ListNotations.
 Local Open Scope Z_scope.
 
 Section Proofs.
-Context (A : Alg) (db : database) (v : variant).
+Context (A : Alg) (db : database) (v : variant) (lb : Z).
 
 Notation spf := (spf db).
 Notation eof := (eof db).
-Notation spec_val := (spec_val A db).
-Notation spec_window := (spec_window A db).
+Notation spec_val := (spec_val A db lb).
+Notation spec_window := (spec_window A db lb).
 Notation spec_count := (spec_count db).
-Notation impl_read := (impl_read A db v).
-Notation uncovered := (uncovered A db v).
-Notation covered := (covered A db v).
+Notation impl_read := (impl_read A db v lb).
+Notation uncovered := (uncovered A db v lb).
+Notation covered := (covered A db v lb).
 Notation wf := (wf db).
 
 Lemma spf_pos f : wf f -> 0 < spf f.
@@ -37,7 +37,7 @@ Proof.
 Qed.
 
 Lemma buf_spec_window rt f s n i :
-  0 <= i < spec_count f s n -> buf A (spec_window rt f s n) i = spec_val rt f (s + i).
+  0 <= i < spec_count f s n -> buf A (spec_window rt f s n) i = spec_val rt f s (s + i).
 Proof. intro H. unfold buf, Field.spec_window. now rewrite nthZ_map_zrange. Qed.
 
 Lemma app_nil_inv {X} (l1 l2 : list X) : l1 ++ l2 = [] -> l1 = [] /\ l2 = [].
@@ -242,7 +242,7 @@ Proof.
   rewrite buf_spec_window by (rewrite Ec1; lia).
   assert (0 <= (r + i * s2) / s1) by (apply Z.div_pos; [nia | lia]).
   rewrite buf_spec_window by (unfold Field.spec_count; fold c2; specialize (Hb i Hi); lia).
-  cbn [Field.spec_val]. rewrite Es1, Es2. rewrite (align_index_r s i s1 s2 q r H1 Hq).
+  cbn [Field.spec_val]. rewrite Es1, Es2. rewrite (align_index_r s i s1 s2 q r H1 Hq), <- Eq.
   reflexivity.
 Qed.
 
@@ -365,7 +365,7 @@ Proof.
   rewrite buf_spec_window by (unfold Field.spec_count; fold c2; specialize (Hb2 i ltac:(lia)); lia).
   rewrite buf_spec_window by (unfold Field.spec_count; fold c3; specialize (Hb3 i Hi); lia).
   cbn [Field.spec_val]. rewrite Es1, Es2, Es3.
-  rewrite (align_index_r s i s1 s2 q2 r2 H1 Hq2), (align_index_r s i s1 s3 q3 r3 H1 Hq3).
+  rewrite (align_index_r s i s1 s2 q2 r2 H1 Hq2), (align_index_r s i s1 s3 q3 r3 H1 Hq3), <- Eq2, <- Eq3.
   reflexivity.
 Qed.
 
@@ -448,13 +448,34 @@ Qed.
 
 End Mplex.
 
-Lemma mplex_nat_ext fv gm gm' padv : (forall j, gm j = gm' j) ->
-  forall k, mplex_nat A fv gm padv k = mplex_nat A fv gm' padv k.
-Proof. intros H. induction k; simpl; rewrite H; [reflexivity|]. now rewrite IHk. Qed.
+Lemma mplex_nat_ext fv fv' gm gm' padv : (forall j, fv j = fv' j) -> (forall j, gm j = gm' j) ->
+  forall k, mplex_nat A fv gm padv k = mplex_nat A fv' gm' padv k.
+Proof. intros Hf Hg. induction k; simpl; rewrite Hf, Hg; [reflexivity|]. now rewrite IHk. Qed.
 
-Lemma mplex_at_ext fv gm gm' padv k : (forall j, gm j = gm' j) ->
-  mplex_at A fv gm padv k = mplex_at A fv gm' padv k.
-Proof. intro H. unfold mplex_at. rewrite H. now rewrite (mplex_nat_ext fv gm gm' padv H). Qed.
+Lemma mplex_at_ext fv fv' gm gm' padv k : (forall j, fv j = fv' j) -> (forall j, gm j = gm' j) ->
+  mplex_at A fv gm padv k = mplex_at A fv' gm' padv k.
+Proof. intros Hf Hg. unfold mplex_at. rewrite Hf, Hg. now rewrite (mplex_nat_ext fv fv' gm gm' padv Hf Hg). Qed.
+
+(* with an unlimited look-back, or without MPLEX, a sample's value does not
+   depend on where the read started *)
+Lemma spec_val_start f : lb < 0 \/ mplexfreeb f = true ->
+  forall rt s s' k, spec_val rt f s k = spec_val rt f s' k.
+Proof.
+  induction f; simpl; intros H rt s s' k; auto.
+  - f_equal. apply IHf; auto.
+  - assert (H1 : lb < 0 \/ mplexfreeb f1 = true) by (destruct H as [H|H]; auto; apply andb_true_iff in H; tauto).
+    assert (H2 : lb < 0 \/ mplexfreeb f2 = true) by (destruct H as [H|H]; auto; apply andb_true_iff in H; tauto).
+    f_equal; [apply IHf1 | apply IHf2]; auto.
+  - assert (H1 : lb < 0 \/ mplexfreeb f1 = true) by (destruct H as [H|H]; auto; rewrite !andb_true_iff in H; tauto).
+    assert (H2 : lb < 0 \/ mplexfreeb f2 = true) by (destruct H as [H|H]; auto; rewrite !andb_true_iff in H; tauto).
+    assert (H3 : lb < 0 \/ mplexfreeb f3 = true) by (destruct H as [H|H]; auto; rewrite !andb_true_iff in H; tauto).
+    f_equal; [apply IHf1 | apply IHf2 | apply IHf3]; auto.
+  - destruct H as [H|H]; [|discriminate].
+    unfold mplex_lo. replace (lb <? 0) with true by (symmetry; apply Z.ltb_lt; lia).
+    unfold mplex_from. apply mplex_at_ext.
+    + intro j. apply IHf1; auto.
+    + intro j. f_equal. apply IHf2; auto.
+Qed.
 
 Lemma concat_map_nil {X Y} (f : X -> list Y) l : concat (map f l) = [] -> forall x, In x l -> f x = [].
 Proof.
@@ -475,12 +496,14 @@ Lemma impl_read_mplex rt g h cnt per s n :
   if n2 =? 0 then Some [] else
   obind
     (if mplex_match A cnt (buf A Y 0) then Some (pad A rt)
+     else if lb =? 0 then Some (pad A rt)
      else
+       let lo := mplex_lo lb cnt per f2 in
        obind
-         (if f2 <=? 0 then Some (pad A rt)
+         (if f2 <=? lo then Some (pad A rt)
           else
-            obind (impl_read I32 h 0 f2) (fun L =>
-            match last_match A cnt L 0 None with
+            obind (impl_read I32 h lo (f2 - lo)) (fun L =>
+            match last_match A cnt L lo None with
             | Some j => obind (impl_read rt g (j * s1 / s2) 1) (fun R => Some (hd (pad A rt) R))
             | None => Some (pad A rt)
             end))
@@ -500,16 +523,18 @@ Lemma uncovered_mplex rt g h cnt per s n :
    (if c1 <=? 0 then [] else
     tag_if (negb (s1 =? s2)) TMplexRate ++
     tag_if (s <? 0) TMplexNeg ++
+    tag_if (negb ((lb <? 0) || (mplexfreeb g && mplexfreeb h))) TMplexNested ++
     tag_if (negb (seek_ok g (s + c1) &&
                   seek_ok h (s * s2 / s1 + spec_count h (s * s2 / s1) (cdiv (arem s s1 s2 + c1 * s2) s1)))) TMplexSeek ++
     uncovered I32 h (s * s2 / s1) (cdiv (arem s s1 s2 + c1 * s2) s1) ++
-    (if 0 <? s * s2 / s1 then
-       uncovered I32 h 0 (s * s2 / s1) ++
-       concat (map (fun j => uncovered rt g (j * s1 / s2) 1) (zrange 0 (s * s2 / s1)))
+    (let lo := mplex_lo lb cnt per (s * s2 / s1) in
+     if lo <? s * s2 / s1 then
+       uncovered I32 h lo (s * s2 / s1 - lo) ++
+       concat (map (fun j => uncovered rt g (j * s1 / s2) 1) (zrange lo (s * s2 / s1 - lo)))
      else []))).
 Proof. reflexivity. Qed.
 
-Lemma ecount_full e s : 0 <= s -> elt s e -> ecount e 0 s = s.
+Lemma ecount_tail e lo s : lo <= s -> elt s e -> ecount e lo (s - lo) = s - lo.
 Proof. destruct e; simpl; lia. Qed.
 
 Lemma ecount_one e j : elt j e -> ecount e j 1 = 1.
@@ -518,13 +543,19 @@ Proof. destruct e; simpl; lia. Qed.
 Lemma elt_mono e j s : j <= s -> elt s e -> elt j e.
 Proof. destruct e; simpl; lia. Qed.
 
+Lemma mplex_lo_bounds cnt per q : 0 <= per -> 0 <= q -> 0 <= mplex_lo lb cnt per q <= q.
+Proof.
+  intros Hp Hq. unfold mplex_lo, mplex_cycle. destruct (Z.ltb_spec lb 0); [lia|].
+  destruct (Z.eqb_spec per 0); nia.
+Qed.
+
 Lemma mplex_case rt g h cnt per s n :
   (forall rt s n, wf g -> 0 <= n -> covered rt g s n -> impl_read rt g s n = Some (spec_window rt g s n)) ->
   (forall rt s n, wf h -> 0 <= n -> covered rt h s n -> impl_read rt h s n = Some (spec_window rt h s n)) ->
   wf (Mplex g h cnt per) -> 0 <= n -> covered rt (Mplex g h cnt per) s n ->
   impl_read rt (Mplex g h cnt per) s n = Some (spec_window rt (Mplex g h cnt per) s n).
 Proof.
-  intros IHg IHh [Hwg Hwh] Hn Hc.
+  intros IHg IHh (Hwg & Hwh & Hper) Hn Hc.
   unfold Field.covered in Hc. rewrite uncovered_mplex in Hc.
   cbv zeta in Hc. apply app_nil_inv in Hc. destruct Hc as [Hcg Hc].
   rewrite impl_read_mplex. rewrite (IHg rt s n Hwg Hn Hcg). cbn [obind]. cbv zeta.
@@ -549,6 +580,11 @@ Proof.
   rewrite Eq, Er. unfold arem in *. rewrite Z.mod_mul in * by lia. rewrite Z.div_mul in * by lia.
   rewrite Z.add_0_l in *. rewrite cdiv_mul in * by lia.
   apply app_nil_inv in Hc. destruct Hc as [Hs0 Hc]. apply tag_if_nil in Hs0. apply Z.ltb_ge in Hs0.
+  apply app_nil_inv in Hc. destruct Hc as [Hnest Hc]. apply tag_if_nil in Hnest. apply negb_false_iff in Hnest.
+  assert (Hig : lb < 0 \/ mplexfreeb g = true).
+  { apply orb_true_iff in Hnest. destruct Hnest as [H|H]; [left; apply Z.ltb_lt; exact H|right; apply andb_true_iff in H; tauto]. }
+  assert (Hih : lb < 0 \/ mplexfreeb h = true).
+  { apply orb_true_iff in Hnest. destruct Hnest as [H|H]; [left; apply Z.ltb_lt; exact H|right; apply andb_true_iff in H; tauto]. }
   apply app_nil_inv in Hc. destruct Hc as [Hsk Hc]. apply tag_if_nil in Hsk. apply negb_false_iff in Hsk.
   apply app_nil_inv in Hc. destruct Hc as [Hch Hlb].
   rewrite (IHh I32 s c1 Hwh Hc1 Hch). cbn [obind]. rewrite zlen_spec_window by auto.
@@ -568,43 +604,58 @@ Proof.
   assert (Hn1nn : 0 <= n1) by (rewrite Hn1; apply cap_nonneg; lia).
   assert (Helt_g : elt s (eof g)).
   { apply (ecount_pos_elt _ s n). unfold Field.spec_count in Ec1. lia. }
-  (* the documented MPLEX over the two input functions *)
-  set (fv := spec_val rt g). set (gi := spec_val I32 h).
+  (* the first sample the look-back considers *)
+  pose proof (mplex_lo_bounds cnt per s Hper Hs0) as Hlo.
+  set (lo := mplex_lo lb cnt per s) in *.
+  (* the documented MPLEX over the two input functions, counted from lo *)
+  set (fv := fun i => spec_val rt g s (lo + i)). set (gi := fun i => spec_val I32 h s (lo + i)).
   set (gm := fun k => mplex_match A cnt (gi k)).
   set (Mf := fun k => mplex_at A fv gm (pad A rt) k).
-  assert (HM : forall k, spec_val rt (Mplex g h cnt per) k = Mf k).
-  { intro k. cbn [Field.spec_val]. unfold Mf. apply mplex_at_ext. intro j. unfold gm, gi.
-    rewrite Es2, Es1. rewrite Z.div_mul by lia. reflexivity. }
+  assert (HM : forall k, spec_val rt (Mplex g h cnt per) s k = Mf (k - lo)).
+  { intro k. cbn [Field.spec_val]. rewrite Es2, Es1. rewrite Z.div_mul by lia. fold lo.
+    rewrite cdiv_mul by lia. unfold mplex_from, Mf. apply mplex_at_ext; [reflexivity|].
+    intro j. unfold gm, gi. rewrite Z.div_mul by lia. reflexivity. }
   (* the start value *)
   assert (Hstart : exists st,
     (if mplex_match A cnt (buf A (spec_window I32 h s c1) 0) then Some (pad A rt)
+     else if lb =? 0 then Some (pad A rt)
      else obind
-       (if s <=? 0 then Some (pad A rt)
-        else obind (impl_read I32 h 0 s) (fun L =>
-             match last_match A cnt L 0 None with
+       (if s <=? lo then Some (pad A rt)
+        else obind (impl_read I32 h lo (s - lo)) (fun L =>
+             match last_match A cnt L lo None with
              | Some j => obind (impl_read rt g (j * s1 / s1) 1) (fun R => Some (hd (pad A rt) R))
              | None => Some (pad A rt)
              end))
        (fun st => if seek_ok g (s + c1) && seek_ok h (s + c2) then Some st else None)) = Some st /\
-    (gm s = false -> st = if s =? 0 then pad A rt else Mf (s - 1))).
+    (gm (s - lo) = false -> st = if s - lo =? 0 then pad A rt else Mf (s - lo - 1))).
   { rewrite buf_spec_window by (unfold Field.spec_count; fold c2; lia).
-    rewrite Z.add_0_r. fold gi. fold (gm s).
-    destruct (gm s) eqn:Eg.
+    rewrite Z.add_0_r. replace (spec_val I32 h s s) with (gi (s - lo)) by (unfold gi; f_equal; lia).
+    fold (gm (s - lo)).
+    destruct (gm (s - lo)) eqn:Eg.
     { exists (pad A rt). split; [reflexivity|]. discriminate. }
+    destruct (Z.eqb_spec lb 0) as [Hl0|Hl0].
+    { exists (pad A rt). split; [reflexivity|]. intros _.
+      assert (lo = s) by (unfold lo, mplex_lo; subst lb; simpl; lia).
+      replace (s - lo =? 0) with true by (symmetry; apply Z.eqb_eq; lia). reflexivity. }
     rewrite Hsk.
-    destruct (Z.leb_spec s 0) as [Hs|Hs].
-    { exists (pad A rt). split; [reflexivity|]. intros _. replace s with 0 by lia. reflexivity. }
-    replace (0 <? s) with true in Hlb by (symmetry; apply Z.ltb_lt; lia).
-    apply app_nil_inv in Hlb. destruct Hlb as [Hl0 Hlg].
-    rewrite (IHh I32 0 s Hwh ltac:(lia) Hl0). cbn [obind].
+    destruct (Z.leb_spec s lo) as [Hs|Hs].
+    { exists (pad A rt). split; [reflexivity|]. intros _.
+      replace (s - lo =? 0) with true by (symmetry; apply Z.eqb_eq; lia). reflexivity. }
+    replace (lo <? s) with true in Hlb by (symmetry; apply Z.ltb_lt; lia).
+    apply app_nil_inv in Hlb. destruct Hlb as [Hl0' Hlg].
+    rewrite (IHh I32 lo (s - lo) Hwh ltac:(lia) Hl0'). cbn [obind].
     unfold Field.spec_window at 1. unfold Field.spec_count.
-    rewrite (ecount_full (eof h) s ltac:(lia) He). fold gi.
-    pose proof (last_match_spec cnt gi (Z.to_nat s) 0 None) as Hlm. cbv zeta in Hlm.
+    rewrite (ecount_tail (eof h) lo s ltac:(lia) He).
+    assert (HL : map (spec_val I32 h lo) (zrange lo (s - lo)) = map (fun j => gi (j - lo)) (zrange lo (s - lo))).
+    { apply map_ext. intro j. unfold gi. rewrite (spec_val_start h Hih I32 lo s). f_equal. lia. }
+    rewrite HL.
+    pose proof (last_match_spec cnt (fun j => gi (j - lo)) (Z.to_nat (s - lo)) lo None) as Hlm. cbv zeta in Hlm.
     rewrite Z2Nat.id in Hlm by lia.
     destruct Hlm as [[Hr Hno]|(j & Hr & Hj & Hg & Hno)]; rewrite Hr.
     - exists (pad A rt). split; [reflexivity|]. intros _.
-      replace (s =? 0) with false by (symmetry; apply Z.eqb_neq; lia).
-      unfold Mf. symmetry. apply M_none; [lia|]. intros. apply Hno. lia.
+      replace (s - lo =? 0) with false by (symmetry; apply Z.eqb_neq; lia).
+      unfold Mf. symmetry. apply M_none; [lia|]. intros i Hi. unfold gm.
+      specialize (Hno (lo + i) ltac:(lia)). replace (lo + i - lo) with i in Hno by lia. exact Hno.
     - rewrite Z.div_mul by lia.
       assert (Hcj : covered rt g j 1).
       { unfold Field.covered. pose proof (concat_map_nil _ _ Hlg j) as Hx. cbv beta in Hx.
@@ -613,22 +664,28 @@ Proof.
       unfold Field.spec_window, Field.spec_count.
       rewrite (ecount_one (eof g) j (elt_mono _ j s ltac:(lia) Helt_g)).
       replace (zrange j 1) with [j] by (unfold zrange; simpl; f_equal; lia). cbn [map hd].
-      exists (spec_val rt g j). split; [reflexivity|]. intros _.
-      replace (s =? 0) with false by (symmetry; apply Z.eqb_neq; lia).
-      unfold Mf. replace (s - 1) with (j + (s - 1 - j)) by lia. symmetry.
-      apply M_last; try lia; auto. intros. apply Hno. lia. }
+      exists (spec_val rt g j j). split; [reflexivity|]. intros _.
+      replace (s - lo =? 0) with false by (symmetry; apply Z.eqb_neq; lia).
+      unfold Mf. replace (s - lo - 1) with ((j - lo) + (s - 1 - j)) by lia.
+      transitivity (fv (j - lo)).
+      + unfold fv. rewrite (spec_val_start g Hig rt j s). f_equal. lia.
+      + symmetry. apply (M_last cnt fv gi (pad A rt) (j - lo) (s - 1 - j)); try lia.
+        * exact Hg.
+        * intros i Hi. specialize (Hno (lo + i) ltac:(lia)). replace (lo + i - lo) with i in Hno by lia. exact Hno. }
+  fold lo.
   destruct Hstart as (st & Est & Hst). rewrite Est. cbn [obind].
   f_equal. unfold Field.spec_window at 3. rewrite Hcount, <- Hn1.
-  rewrite (map_ext _ _ HM).
-  replace (map (buf A (spec_window rt g s n)) (zrange 0 n1)) with (map fv (zrange s n1)).
+  replace (map (spec_val rt (Mplex g h cnt per) s) (zrange s n1)) with (map Mf (zrange (s - lo) n1)).
+  2:{ apply map_zrange_ext2. intros i Hi. rewrite HM. f_equal. lia. }
+  replace (map (buf A (spec_window rt g s n)) (zrange 0 n1)) with (map fv (zrange (s - lo) n1)).
   2:{ apply map_zrange_ext2. intros i Hi. rewrite Z.add_0_l.
-      rewrite buf_spec_window by (rewrite Ec1; lia). reflexivity. }
-  replace (map (fun i => buf A (spec_window I32 h s c1) ((0 + i * s1) / s1)) (zrange 0 n1)) with (map gi (zrange s n1)).
+      rewrite buf_spec_window by (rewrite Ec1; lia). unfold fv. f_equal. lia. }
+  replace (map (fun i => buf A (spec_window I32 h s c1) ((0 + i * s1) / s1)) (zrange 0 n1)) with (map gi (zrange (s - lo) n1)).
   2:{ apply map_zrange_ext2. intros i Hi. rewrite !Z.add_0_l. rewrite Z.div_mul by lia.
       pose proof (Hb i Hi) as Hbi. rewrite Z.add_0_l, Z.div_mul in Hbi by lia.
-      rewrite buf_spec_window by (unfold Field.spec_count; fold c2; lia). reflexivity. }
+      rewrite buf_spec_window by (unfold Field.spec_count; fold c2; lia). unfold gi. f_equal. lia. }
   rewrite <- (Z2Nat.id n1 Hn1nn).
-  apply (fold_spec cnt fv gi (pad A rt) (Z.to_nat n1) s st Hs0 Hst).
+  apply (fold_spec cnt fv gi (pad A rt) (Z.to_nat n1) (s - lo) st ltac:(lia) Hst).
 Qed.
 
 (* ---- the main theorem ------------------------------------------------------------ *)
